@@ -629,6 +629,13 @@ func checkGlobalRefEscapeOpt(c *core.Ctx, r *core.Rule, prog *core.Prog, pkgPath
 							case *ssa.Store:
 								if x.Val == ev {
 									escapes = "is stored into another structure"
+									// the cell of a local variable (captured or not) is not a structure: `part = p` in
+									// gen/names.go; what is done through the variable afterwards (append in place) is the
+									// business of the append-effect rule R10.2
+									switch x.Addr.(type) {
+									case *ssa.Alloc, *ssa.FreeVar:
+										escapes = ""
+									}
 								}
 							case *ssa.Return:
 								escapes = "is returned"
